@@ -1409,4 +1409,46 @@ theorem varianceCode_eq_def (H rho : Mat) (n : Nat) (hHr : H.r = n) (hHc : H.c =
   unfold varianceCodeDM varianceDM
   rw [secondMomentCode_eq_def H rho n hHr hHc hRc herm]
 
+/-! ### 11. state-preparation errors -/
+
+theorem decode_encode (bad : List Bool) : decodeConfig (encodeConfig bad) = bad := by
+  induction bad with
+  | nil => rfl
+  | cons b bs ih =>
+    simp only [decodeConfig, encodeConfig, List.map_cons] at ih ⊢
+    rw [ih]; cases b <;> simp
+
+theorem mem_allBits_length (n : Nat) (b : List Bool) (h : b ∈ allBits n) : b.length = n := by
+  induction n generalizing b with
+  | zero => simp [allBits] at h; subst h; rfl
+  | succ n ih =>
+    simp only [allBits, List.mem_flatMap, List.mem_map] at h
+    obtain ⟨x, _, c, hc, rfl⟩ := h
+    simp [ih c hc]
+
+theorem configWeight_sum_one (eta : Rat) (n : Nat) :
+    ((allBits n).map (configWeight eta)).sum = 1 := by
+  have e : (allBits n).map (configWeight eta)
+      = (allBits n).map (flipKernel eta 0 (List.replicate n false)) := by
+    apply List.map_congr_left
+    intro c hc
+    simp [configWeight, mem_allBits_length n c hc]
+  rw [e]
+  have := flipKernel_sum_one eta 0 (List.replicate n false)
+  simpa using this
+
+theorem configWeight_marginal (eta : Rat) (n i : Nat) (hi : i < n) :
+    (((allBits n).filter fun c => c.getD i false == true).map (configWeight eta)).sum = eta := by
+  have e : ((allBits n).filter fun c => c.getD i false == true).map (configWeight eta)
+      = ((allBits n).filter fun c => c.getD i false == true).map
+          (flipKernel eta 0 (List.replicate n false)) := by
+    apply List.map_congr_left
+    intro c hc
+    simp [configWeight, mem_allBits_length n c (List.mem_filter.mp hc).1]
+  rw [e]
+  have := flipKernel_marginal eta 0 true (List.replicate n false) i (by simpa using hi)
+  simp only [List.length_replicate] at this
+  rw [this]
+  simp [List.getD_eq_getElem?_getD, hi, flip1]
+
 end Pulser.Measure
